@@ -102,10 +102,7 @@ Proof.
     { apply app_eq_nil in E. destruct E as [_ E]. congruence. }
     inversion Hall as [|? ? Hh _]; subst. exists h, tl. split; [reflexivity|]. apply tokch_plainb. eapply (digit_tokch 8); [lia|exact Hh].
   - unfold render_ip4. destruct (dec_head a) as (h & tl & E & _ & Hp). rewrite E. cbn [app]. eauto.
-  - unfold ip6_ok in H. apply andb_true_iff in H. destruct H as [Hlen Hok]. destruct gs as [|g gs]; [discriminate|].
-    cbn [groups_ok] in Hok. apply andb_true_iff in Hok. destruct Hok as [Hg _].
-    destruct (group_head _ (hd false (g_upper c6)) _ Hg) as (h & tl & E & _ & Hp).
-    unfold render_ip6. cbn [render_groups]. rewrite E. cbn [app]. eauto.
+  - destruct (ip6_head c6 gs H) as (h & tl & E & _ & Hp). eauto.
   - unfold string_ok in H. apply andb_true_iff in H. destruct H as [_ H]. destruct sc as [es|es]; cbn [render_string].
     + eexists _, _. split; reflexivity.
     + repeat (apply andb_true_iff in H; destruct H as [H ?]). destruct s as [|c s]; [discriminate|].
@@ -160,10 +157,7 @@ Proof.
     { apply app_eq_nil in E2. destruct E2 as [_ E2]. congruence. }
     inversion Hall as [|? ? Hh _]; subst. eapply head_not_bh; [exact E|unfold digit_of in Hh; lia].
   - unfold render_ip4 in E. destruct (dec_head a) as (h & tl & Eh & Hh & _). rewrite Eh in E. eapply head_not_bh; [exact E|exact Hh].
-  - unfold ip6_ok in H. apply andb_true_iff in H. destruct H as [Hlen Hok]. destruct gs as [|g gs]; [discriminate|].
-    cbn [groups_ok] in Hok. apply andb_true_iff in Hok. destruct Hok as [Hg _].
-    destruct (group_head _ (hd false (g_upper c6)) _ Hg) as (h & tl & Eh & Hh & _).
-    unfold render_ip6 in E. cbn [render_groups] in E. rewrite Eh in E. eapply head_not_bh; [exact E|exact Hh].
+  - destruct (ip6_head c6 gs H) as (h & tl & Eh & Hh & _). rewrite Eh in E. eapply head_not_bh; [exact E|exact Hh].
   - unfold string_ok in H. apply andb_true_iff in H. destruct H as [_ H]. destruct sc as [es|es]; cbn [render_string] in *.
     + eapply head_not_bh; [exact E|discriminate].
     + repeat (apply andb_true_iff in H; destruct H as [H ?]). destruct s as [|c s]; [discriminate|].
@@ -350,7 +344,7 @@ Proof.
   intros H He. prep H. unfold parse_in_aaaa_rdata. first_field HP Hf.
   tok_last ltac:(apply ip6_field_runs; eapply fok_ip6; exact Hf) He. finish He.
   cbn [flat_map field_wire]. rewrite app_nil_r. apply mk_rdata_runs.
-  pose proof (fok_ip6 _ _ _ _ Hf) as H6. unfold ip6_ok in H6. apply andb_true_iff in H6. destruct H6 as [H6 _]. apply Nat.eqb_eq in H6.
+  pose proof (ip6_ok_len _ _ (fok_ip6 _ _ _ _ Hf)) as H6.
   assert (L : forall l : list N, length (flat_map sbe16 l) = (2 * length l)%nat).
   { induction l as [|g l IH]; [reflexivity|]. cbn [flat_map]. rewrite app_length, IH. change (length (sbe16 g)) with 2%nat. cbn [length]. lia. }
   rewrite L, H6. simpl. lia.
